@@ -10,10 +10,10 @@ import (
 // NoiseKinds lists, per probe kind, the must-reject perturbations (C01/C04) the generator draws from.
 // strictOnly kinds are must-reject only with strict quoted-source checking.
 var quoteNoiseKinds = map[string][]string{
-	"icmp-echo": {"q-dst-addr", "q-src-addr", "q-echo-id", "q-echo-seq256", "q-unsent", "echo-reply-id", "echo-reply-seq256", "echo-reply-foreign", "echo-reply-unsent"},
-	"udp":       {"q-dst-addr", "q-dst-port", "q-src-addr", "q-src-port", "q-id", "q-unsent"},
-	"tcp-syn":   {"q-dst-addr", "q-dst-port", "q-src-addr", "q-src-port", "q-id", "q-tcp-seq", "q-unsent", "tcp-wrong-src", "tcp-wrong-sport", "tcp-wrong-dport", "tcp-wrong-dst", "tcp-ack-wrong", "tcp-flags-other"},
-	"tcp-ack":   {"q-dst-addr", "q-dst-port", "q-src-addr", "q-src-port", "q-tcp-seq", "q-unsent", "sack-wrong-src", "sack-wrong-sport", "sack-wrong-dport", "sack-wrong-dst", "sack-edge-oob", "sack-edge-unsent", "sack-synflag"},
+	"icmp-echo": {"q-short", "q-dst-addr", "q-src-addr", "q-echo-id", "q-echo-seq256", "q-unsent", "echo-reply-id", "echo-reply-seq256", "echo-reply-foreign", "echo-reply-unsent"},
+	"udp":       {"q-short", "q-dst-addr", "q-dst-port", "q-src-addr", "q-src-port", "q-id", "q-unsent"},
+	"tcp-syn":   {"q-short", "q-dst-addr", "q-dst-port", "q-src-addr", "q-src-port", "q-id", "q-tcp-seq", "q-unsent", "tcp-wrong-src", "tcp-wrong-sport", "tcp-wrong-dport", "tcp-wrong-dst", "tcp-ack-wrong", "tcp-flags-other"},
+	"tcp-ack":   {"q-short", "q-dst-addr", "q-dst-port", "q-src-addr", "q-src-port", "q-tcp-seq", "q-unsent", "sack-wrong-src", "sack-wrong-sport", "sack-wrong-dport", "sack-wrong-dst", "sack-edge-oob", "sack-edge-unsent", "sack-synflag"},
 }
 
 var strictOnlyNoise = map[string]bool{"q-src-addr": true, "q-src-port": true}
@@ -85,6 +85,17 @@ func (n *NetWorld) buildNoise(fs *flowSt, p *Probe, ni NoiseItem) (Sched, bool) 
 	}
 	paris := p.Kind == "tcp-syn" && p.IP.ID == 41821
 	switch ni.Kind {
+	case "q-short":
+		// the quote ends 0, 2 or 3 bytes after the IP header: it carries the probe's IP header and identification,
+		// but not the destination port / echo identifier that names the probe's flow; nothing can be attributed to it, and nothing left over from an earlier packet may fill the gap
+		k := []int{0, 2, 3}[arg%3]
+		if len(raw) > off+k {
+			raw = raw[:off+k]
+		}
+		// never in the zero-padded RFC 4884 form: the padding could reproduce the missing bytes (a destination
+		// port whose low byte is 0), and then the quote does name the flow
+		ni.Form = FormSpec{}
+		return quoted(raw)
 	case "q-dst-addr":
 		if v6 {
 			flipAddr(raw[24:40])
